@@ -488,7 +488,23 @@ pub fn run_c07(tier: Tier) -> Report {
         ("if .c == true { abort .s }; 1", b(vec![m::if_(c_true(), vec![P::Abort(Some(Box::new(m::call_bang("string", vec![evp("s")]))))]), m::lit_i(1)])),
     ];
     let closure_holes: Vec<(&'static str, P)> =
-        vec![("if v == 2 { abort \"it\" }; 1", b(vec![m::if_(m::bin("==", m::var("v"), m::lit_i(2)), vec![P::Abort(Some(Box::new(m::lit_s("it"))))]), m::lit_i(1)]))];
+        vec![
+            ("if v == 2 { abort \"it\" }; 1", b(vec![m::if_(m::bin("==", m::var("v"), m::lit_i(2)), vec![P::Abort(Some(Box::new(m::lit_s("it"))))]), m::lit_i(1)])),
+            // abort on the FIRST element: later iterations must not run (their side effect and their own abort would show)
+            (
+                "if v == 1 { abort \"first\" }; .seen = v; if v == 2 { abort \"second\" }; 1",
+                b(vec![
+                    m::if_(m::bin("==", m::var("v"), m::lit_i(1)), vec![P::Abort(Some(Box::new(m::lit_s("first"))))]),
+                    m::set(evt("seen"), m::var("v")),
+                    m::if_(m::bin("==", m::var("v"), m::lit_i(2)), vec![P::Abort(Some(Box::new(m::lit_s("second"))))]),
+                    m::lit_i(1),
+                ]),
+            ),
+            (
+                "if k == \"a\" { abort \"first\" }; .seen = k; 1",
+                b(vec![m::if_(m::bin("==", m::var("k"), m::lit_s("a")), vec![P::Abort(Some(Box::new(m::lit_s("first"))))]), m::set(evt("seen"), m::var("k")), m::lit_i(1)]),
+            ),
+        ];
     let cases = context_cases_tier("C07", &holes, &closure_holes, true, true, &mut skipped);
     let rw: Vec<J> = vec![
         fixed("C07", ".r = replace_with(\"abcb\", r'b') -> |m| { .n = 1; abort; \"x\" }\n.m2 = 1", json!({}), json!({"class": "abort", "abort_message": null, "event": {"n": 1}})),
@@ -501,7 +517,7 @@ pub fn run_c07(tier: Tier) -> Report {
     ];
     law::drive(&mut rep, "replace_with (hand-written expectations)", &rw, fixed_case);
     let _ = tier;
-    finish(&mut rep, &cases, &skipped, "all programs S(E1(E2(hole))) over 19 statement contexts × 24×24 expression contexts (incl. optional stdlib parameters and the collection argument of closure functions) × abort-holes (4 plain + 1 per-iteration inside closures), each on every event of the 10-event alphabet; non-trivial = accepted by the real compiler and defined by the reference interpreter; distinct = distinct (program, event)");
+    finish(&mut rep, &cases, &skipped, "all programs S(E1(E2(hole))) over 19 statement contexts × 24×24 expression contexts (incl. optional stdlib parameters and the collection argument of closure functions) × abort-holes (4 plain + 3 per-iteration inside closures, incl. abort on the first element followed by side-effecting later iterations), each on every event of the 10-event alphabet; non-trivial = accepted by the real compiler and defined by the reference interpreter; distinct = distinct (program, event)");
     rep
 }
 
